@@ -9,6 +9,17 @@ import sys
 V = os.path.dirname(os.path.dirname(os.path.abspath(__file__)))
 src = sys.argv[1] if len(sys.argv) > 1 else '/tmp/mut-out'
 rows = []
+# changes that the checks MISSED when first evaluated; the check was then strengthened (generators/oracles, see DESIGN.md
+# section 13) and the change re-evaluated
+FIRST_MISSED = {
+    'C08_m2': 'missed at first (no finite conserve=None spin chain, single-operator ops lists only); generator extended',
+    'C12_m2': 'missed at first (every TermList got a fresh strength list); MPO stream now shares one strength array per case',
+    'C19_m1': 'missed at first (no transformed lattices; N_sites taken from the implementation); transform generator + documented sizes added',
+    'C19_m2': 'missed at first (pairs of MultiSpeciesLattice never read); multi-species geometry oracle added',
+    'C03_m1': 'missed at first (hidden buffer sharing invisible to post-step fingerprints); memory-sharing observable + write probe added',
+    'C03_m2': 'missed at first (get_theta(n=1) with stored form never probed); MPS accessor aliasing stream added',
+    'C01_m2': 'missed at first (permute-then-binary chains too rare); see DESIGN.md section 13',
+}
 for name in sorted(os.listdir(src)):
     d = os.path.join(src, name)
     ej = os.path.join(d, 'eval.json')
@@ -33,12 +44,12 @@ for name in sorted(os.listdir(src)):
         'demo_unpatched_rc': e.get('demo_unpatched_rc'), 'demo_patched_rc': e.get('demo_patched_rc'),
         'check_detected': e.get('detected'), 'check_gave_failing_input': e.get('with_failing_input'),
         'check_replay_kind': e.get('replay_kind'), 'check_replay_what': e.get('replay_what'), 'evaluated_at': e.get('at'),
-        'note': e.get('note', ''),
+        'note': e.get('note', '') or FIRST_MISSED.get(name, ''),
     }
     json.dump(meta, open(os.path.join(dst, 'meta.json'), 'w'), indent=1)
     rows.append((name, meta.get('property'), bool(e.get('detected')), bool(e.get('with_failing_input')),
                  (meta.get('what_breaks') or '')[:110].replace('\n', ' ').replace('|', '/'),
-                 (e.get('replay_what') or '')[:110].replace('\n', ' ').replace('|', '/'), e.get('note', '')))
+                 (e.get('replay_what') or '')[:110].replace('\n', ' ').replace('|', '/'), e.get('note', '') or FIRST_MISSED.get(name, '')))
 with open(os.path.join(V, 'seeded', 'SUMMARY.md'), 'w') as f:
     f.write('# Seeded changes (written by independent sub-agents from the property text only) and what the checks do with them\n\n')
     f.write('| id | property | detected | with failing input | what the change breaks | what the check reported | note |\n|---|---|---|---|---|---|---|\n')
